@@ -50,9 +50,9 @@ module.exports = mk({
     const L = tier === 'thorough' ? 4 : 3
     const dims = []
     for (let i = 0; i < L; i++) dims.push({ name: 's' + i, symbols: names, free: true })
-    dims.push({ name: 'verb', symbols: tier === 'thorough' ? VERBOSITIES : [undefined, 'OFF', 'DEBUG'], free: true })
+    dims.push({ name: 'verb', symbols: tier === 'thorough' ? VERBOSITIES : [undefined, 'OFF', 'MANDATORY', 'DEBUG'], free: true })
     dims.push({ name: 'cfg', symbols: ['FULL', 'RENAMED'] })
-    dims.push({ name: 'file', symbols: ['/p/app.js', 'rel/x.js'] })
+    dims.push({ name: 'file', symbols: tier === 'thorough' ? ['/p/app.js', 'rel/x.js'] : ['/p/app.js'] })
     const r = enumerate(dims, { k: 1, valid: (cur, i) => { if (i < L) for (let j = 0; j < i; j++) if (cur['s' + j] === cur['s' + i]) return false; return true } })
     const leaves = r.leaves.map((l) => {
       const body = []
@@ -61,7 +61,12 @@ module.exports = mk({
       if (l.pick.verb !== undefined) cfg.telemetryVerbosity = l.pick.verb
       return { fam: 'perm', key: 'perm¦' + body.join('') + '¦' + l.pick.verb + '¦' + l.pick.cfg + '¦' + l.pick.file, code: `function main(a, b, c, s, o, h) { let x, y, i = 0; ${body.join(' ')} return x }`, config: cfg, file: l.pick.file, desc: 'perm' }
     })
-    // family A under DEBUG as well
+    // the file name reported by the metrics: a few programs x several names x verbosity
+    for (const file of ['/p/app.js', 'rel/x.js', 'x.js', '/p/my file ñ.js', '<anonymous>']) for (const verb of [undefined, 'OFF', 'DEBUG']) for (const st of ['hooked_plus', 'num_plus', 'nested']) {
+      const cfg = Object.assign({}, C.FULL); if (verb !== undefined) cfg.telemetryVerbosity = verb
+      r.stats.states++; r.stats.transitions++
+      leaves.push({ fam: 'perm', key: 'file¦' + st + '¦' + verb + '¦' + file, code: `function main(a, b, c, s, o, h) { let x, y, i = 0; ${STMTS[st]} return x }`, config: cfg, file, desc: 'file' })
+    }
     return { leaves, stats: r.stats }
   },
   oracle ({ a, v, res, resp, leaf, config }) {
